@@ -333,6 +333,81 @@ def disabled_means_silent(ctx):
                   'exceeds the 508 byte budget) still sends an over-long announcement', run)
 
 
+def _disable_tests(init):
+    """If statements of __init__ with `self.is_enabled = False` in one branch"""
+    res = []
+    for n in body_walk(init.node):
+        if isinstance(n, ast.If):
+            for st in n.body + n.orelse:
+                if any(isinstance(x, ast.Assign) and any(isinstance(t, ast.Attribute) and t.attr == 'is_enabled' for t in x.targets)
+                       and isinstance(x.value, ast.Constant) and x.value.value is False for x in [st]):
+                    res.append(n)
+    return res
+
+
+def _is_measure(c):
+    return isinstance(c, ast.Call) and dotted(c.func) == 'len' and c.args and isinstance(c.args[0], ast.Call) and \
+        isinstance(c.args[0].func, ast.Attribute) and dotted(c.args[0].func.value) == 'self'
+
+
+def _feeding_measurements(init, test):
+    out = [c for c in ast.walk(test) if _is_measure(c)]
+    for nm in [x for x in ast.walk(test) if isinstance(x, ast.Name)]:
+        for o in origins(nm, init.node):
+            out += [c for c in ast.walk(o) if _is_measure(c)]
+    return out
+
+
+def _disable_measurements(init):
+    """measurements that feed ONLY the decision to disable the responder (not the truncation)"""
+    feeding = [c for t in _disable_tests(init) for c in _feeding_measurements(init, t.test)]
+    slices = [x for x in body_walk(init.node) if isinstance(x, ast.Slice)]
+    trunc = []
+    for sl in slices:
+        for part in (sl.lower, sl.upper):
+            if part is None:
+                continue
+            trunc += [c for c in ast.walk(part) if _is_measure(c)]
+            for nm in [x for x in ast.walk(part) if isinstance(x, ast.Name)]:
+                for o in origins(nm, init.node):
+                    trunc += [c for c in ast.walk(o) if _is_measure(c)]
+    return [c for c in feeding if not any(c is x for x in trunc)]
+
+
+@rule('C19.R2c', min_instances=1)
+def disabled_only_when_the_identity_does_not_fit(ctx):
+    """the responder is switched off only when the identity alone (message with an empty description) exceeds the budget:
+    the test guarding `self.is_enabled = False` is computed from a message built while self.description is '' - an estimate
+    like `len(full message) - len(raw description)` is wrong for descriptions that grow when JSON-escaped (quotes, newlines,
+    control characters): the responder is then disabled although a truncated description would fit"""
+    m = ctx.m
+    init = m.method(UDP, '__init__', inherited=False)
+    ctx.analysed(init)
+    cfg = CFG(init.node, m, init.module)
+    tests = _disable_tests(init)
+    if not tests:
+        ctx.info(f'{init.qualname}:disabled only when the identity does not fit', init.node, 'the responder is never disabled here', init)
+        return
+    empties = []
+    for n in body_walk(init.node):
+        if isinstance(n, ast.Assign):
+            for t, v in ([(t, n.value) for t in n.targets if not isinstance(t, ast.Tuple)] +
+                         [(te, ve) for t in n.targets if isinstance(t, ast.Tuple) and isinstance(n.value, ast.Tuple) and len(t.elts) == len(n.value.elts)
+                          for te, ve in zip(t.elts, n.value.elts)]):
+                if isinstance(t, ast.Attribute) and t.attr == 'description' and dotted(t.value) == 'self' and isinstance(v, ast.Constant) and v.value == '':
+                    empties += cfg.node_of(n)
+    for t in tests:
+        ms = _feeding_measurements(init, t.test)
+        ok = bool(ms) and bool(empties) and all(all(cfg.dominates(empties, i) for i in cfg.node_of(c)) for c in ms)
+        raw = [x for nm in ast.walk(t.test) if isinstance(nm, ast.Name) for o in origins(nm, init.node) for x in ast.walk(o)
+               if isinstance(x, ast.Call) and call_attr(x) == 'encode' and 'description' in src(x)]
+        ctx.check(ok and not raw, f'{init.qualname}:disabled only when the identity does not fit', t,
+                  'decided on len(builder()) measured while self.description is empty',
+                  f'`{src(t.test)}` is not computed from the identity-only message' + (f' (it uses the raw size `{src(raw[0])}`)' if raw else '') +
+                  ': for a description that grows under JSON escaping (430 quote characters) the responder is switched off although '
+                  'equipment id and firmware fit easily', init)
+
+
 @rule('C19.R2b', min_instances=1)
 def budget_measures_the_complete_message(ctx):
     """the length budget is measured on the message built with the full description (JSON escaping of the description
@@ -346,7 +421,10 @@ def budget_measures_the_complete_message(ctx):
     if not budget:
         raise AnchorMissing('length budget not found', violation=f'{init.qualname}:budget measures the complete message')
     params = {a.arg for a in init.node.args.args}
+    disable_only = _disable_measurements(init)
     for b in budget:
+        if any(b is x for x in disable_only):
+            continue     # the measurement that only decides whether the identity alone fits (C19.R2c)
         bids = set(cfg.node_of(b))
         for n in body_walk(init.node):
             if not isinstance(n, ast.Assign):
@@ -409,3 +487,58 @@ def decoded_bytes_are_the_datagram(ctx):
                           'never answered again (and a fragment can complete to a request)', run)
             else:
                 ctx.undecided(key, d, f'origin of `{base.id}` not classified', run)
+
+
+@rule('C19.R1c', min_instances=2)
+def answering_can_not_end_the_responder(ctx):
+    """every sendto of the responder (answers and the start-up announcement) is covered by a handler for OSError that lets the
+    responder go on: sendto fails for reasons a datagram controls (a request with source port 0 - `sendto(..., (ip, 0))` is
+    EINVAL) or that have nothing to do with later requests (network unreachable at start-up)"""
+    m = ctx.m
+    run = _run(m)
+    loop = _loop(run)
+    ctx.analysed(run)
+    from sa.lib import deep_calls
+    n = 0
+    for c, owner, site in deep_calls(m, run, lambda c: call_attr(c) == 'sendto'):
+        n += 1
+        inloop = any(a is loop for a in ancestors(site))
+        h = covering_handler(c, [OSError], owner.module, stop=loop if inloop and owner is run else None)
+        if h is None and owner is not run:
+            h = covering_handler(site, [OSError], run.module, stop=loop if inloop else None)
+        what = 'answer' if inloop else 'start-up announcement'
+        if h is None:
+            ctx.bad(f'{run.qualname}:{what} sendto contained', c, f'`{src(c)}`: no enclosing handler covers OSError - '
+                    + ('a discovery request whose source port is 0 (sendto gives EINVAL), or any transient send failure, ends the responder '
+                       'thread: no later request is answered' if inloop else
+                       'a failing start-up broadcast (network unreachable, no permission) ends the responder thread before it serves any request'), owner)
+        elif handler_leaves_loop_or_raises(h):
+            ctx.bad(f'{run.qualname}:{what} sendto contained', c, 'the handler covering OSError leaves the responder (return / break / raise)', owner)
+        else:
+            ctx.ok(f'{run.qualname}:{what} sendto contained', c, 'covered by a handler for OSError that continues', owner)
+    if not n:
+        raise AnchorMissing('no sendto found in UDPListener.run', violation=f'{run.qualname}:discover request is answered')
+
+
+@rule('C19.R4b', min_instances=2)
+def one_responder_at_a_time(ctx):
+    """sibling agreement of the two ways the serving loop of Server.run is left: shutdown() and restart() both close the
+    interfaces, and both shut the discovery responder down - after restart() the run loop builds a NEW UDPListener, an old
+    one left running keeps answering (SO_REUSEPORT) with the ports of interfaces that are closed"""
+    m = ctx.m
+    n = 0
+    for name in ('shutdown', 'restart'):
+        f = m.method('frappy.server.Server', name, inherited=False)
+        ctx.analysed(f)
+        closes_ifaces = any(call_attr(c) == 'shutdown' and isinstance(a, ast.For) and 'self.interfaces' in src(a.iter)
+                            for c in calls_in(f.node) for a in ancestors(c))
+        if not closes_ifaces:
+            continue
+        n += 1
+        disc = [c for c in calls_in(f.node) if call_attr(c) == 'shutdown' and 'discovery' in src(c.func)]
+        ctx.check(bool(disc), f'{f.qualname}:discovery responder shut down with the interfaces', f.node,
+                  'self.discovery.shutdown() next to the shutdown of the interfaces',
+                  f'{name}() closes the interfaces but leaves the discovery responder running: after a restart two responders answer each '
+                  'request, the old one announcing ports that are no longer listened on', f)
+    if n < 2:
+        raise AnchorMissing('Server.shutdown / Server.restart closing self.interfaces not found')
